@@ -82,6 +82,7 @@ where
 /*@*/         (old_range.end - old_range.start) <= u32::MAX || (new_range.end - new_range.start) <= u32::MAX,   // table cells are u32
 /*@*/     ensures
 /*@*/         err_post(*vstd::prelude::old(d), *final(d), res),
+/*@*/         (*final(d)).fobs() == (*vstd::prelude::old(d)).fobs(),
 /*@*/         seg_post(*vstd::prelude::old(d), *final(d), old, old_range, new, new_range, alg_lvl(deadline), false, fin::<D>(), res.is_ok()),
 {
     /*@*/ broadcast use {axiom_pure_index, axiom_pure_eq};
@@ -153,7 +154,7 @@ where
     if let Some(table) = maybe_table {
         while new_idx < new_len && old_idx < old_len
         /*@*/     invariant
-        /*@*/         alg_inv(*d, d0, t0, s, rel, lvl, rs0, o0, n0, oc, nc),
+        /*@*/         alg_inv(*d, d0, t0, s, rel, lvl, rs0, o0, n0, oc, nc), (*d).fobs() == d0.fobs(),
         /*@*/         box_pre(old, old_range, new, new_range), rely_pre(d0, old, old_range, new, new_range, lvl),
         /*@*/         rel == rel_of(old, new), lvl == alg_lvl(deadline), r1 == d0.rely_rel(), o0 == old_range.start, n0 == new_range.start,
         /*@*/         d0 == *vstd::prelude::old(d), rs0 == d0.rely_st(), t0 == d0.trace(), oe0 == old_range.end, ne0 == new_range.end,
@@ -250,6 +251,7 @@ where
 /*@*/         (old_range.end - old_range.start) <= u32::MAX || (new_range.end - new_range.start) <= u32::MAX,   // table cells are u32
 /*@*/     ensures
 /*@*/         err_post(*vstd::prelude::old(d), *final(d), res),
+/*@*/         (*final(d)).fobs() == (*vstd::prelude::old(d)).fobs(),
 /*@*/         seg_post(*vstd::prelude::old(d), *final(d), old, old_range, new, new_range, alg_lvl(None), false, fin::<D>(), res.is_ok()),
 {
     diff_deadline(d, old, old_range, new, new_range, None)
